@@ -15,6 +15,8 @@ import time
 VERIF = os.path.dirname(os.path.dirname(os.path.abspath(__file__)))
 REPO = os.environ.get("VERIF_REPO", "/repo")
 SPECS = os.path.join(VERIF, "specs")
+# test corpus: the tree under test if it carries one, else /repo's (scratch mutant copies hold only Lib/)
+TESTS = os.path.join(REPO, "Tests") if os.path.isdir(os.path.join(REPO, "Tests")) else "/repo/Tests"
 TLA_JAR = "/opt/veriftools/tla/tla2tools.jar"
 TLA_DEPS = "/opt/veriftools/tla/CommunityModules-deps.jar"
 
@@ -431,7 +433,7 @@ def _kmatch(k, key):
 
 def corpus_fonts(exts=(".ttf", ".otf", ".ttc", ".woff", ".woff2", ".otc")):
     out = []
-    for root, _, files in os.walk(os.path.join(REPO, "Tests")):
+    for root, _, files in os.walk(TESTS):
         for fn in files:
             if fn.lower().endswith(exts):
                 out.append(os.path.join(root, fn))
@@ -440,7 +442,7 @@ def corpus_fonts(exts=(".ttf", ".otf", ".ttc", ".woff", ".woff2", ".otc")):
 
 def corpus_files(ext):
     out = []
-    for root, _, files in os.walk(os.path.join(REPO, "Tests")):
+    for root, _, files in os.walk(TESTS):
         for fn in files:
             if fn.lower().endswith(ext):
                 out.append(os.path.join(root, fn))
@@ -448,7 +450,7 @@ def corpus_files(ext):
 
 
 def rel(path):
-    return os.path.relpath(path, REPO)
+    return os.path.relpath(path, os.path.dirname(TESTS))
 
 
 def pmap(fn, items, procs=14, chunksize=1):
